@@ -10,6 +10,7 @@ Exit status: 0 property held on everything explored; 1 with a line
 "VIOLATION property=<id> replay=<path>"; 2 infrastructure trouble (inconclusive).
 """
 import argparse
+import atexit
 import hashlib
 import json
 import os
@@ -21,7 +22,24 @@ import tempfile
 import time
 
 ROOT = os.path.dirname(os.path.abspath(__file__))
-BUILD = os.path.join(ROOT, ".build")
+# every invocation builds into its own directory, so that concurrent invocations (several properties at
+# once, a mutant run beside a normal run) never overwrite a binary another one is executing
+BUILD = os.path.join(ROOT, ".build", "run-%d" % os.getpid())
+
+
+def _sweep_build():
+    shutil.rmtree(BUILD, ignore_errors=True)
+    top = os.path.dirname(BUILD)
+    try:
+        for d in os.listdir(top):
+            m = re.match(r"run-(\d+)$", d)
+            if m and not os.path.exists("/proc/%s" % m.group(1)):
+                shutil.rmtree(os.path.join(top, d), ignore_errors=True)
+    except OSError:
+        pass
+
+
+atexit.register(_sweep_build)
 REPO = "/repo"
 GOENV = {
     "GOFLAGS": "-mod=mod",
@@ -311,10 +329,9 @@ def main():
             if clir is None:
                 sys.exit(2)
             extra["VERIF_CLI_RACE"] = clir
-    vmerge = os.path.join(BUILD, "vmerge")
-    if not os.path.exists(vmerge):
-        if build_vmerge() is None:
-            sys.exit(2)
+    vmerge = build_vmerge()
+    if vmerge is None:
+        sys.exit(2)
 
     scratch = tempfile.mkdtemp(prefix="verif-%s-" % prop.lower())
     extra["VERIF_SCRATCH"] = scratch
